@@ -3,3 +3,5 @@ import NTV.Proofs.C05
 #print axioms NTV.C05.zero_panics
 #print axioms NTV.C05.linear
 #print axioms NTV.C05.discriminant_is_discr_partial
+#print axioms NTV.C05.discriminant_total
+#print axioms NTV.C05.discriminant_is_discr
